@@ -27,7 +27,7 @@ DEADLINE = {"quick": 50, "thorough": 420}
 REQUIRED = {
     "parse:outcome:ok": 500, "parse:outcome:parser-exception": 500, "parse:outcome:value-error": 50,
     "parse:exc:InvalidSyntax": 50, "parse:exc:TrailingTokens": 20, "parse:exc:UnexpectedBehavior": 10,
-    "parse:exc:InvalidExpression": 1, "history:after-failure": 200, "history:compared": 500,
+    "parse:exc:InvalidExpression": 1, "history:after-failure": 200, "history:compared": 500, "texts:literal-magnitudes": 500,
 }
 
 
